@@ -6,10 +6,27 @@ package soymsg
 
 // C13: placeholder names must not depend on map iteration order. Step 2 walks
 // the base names in first-seen order (a slice); steps 3 and 4 range over maps.
+// C03: a bundle's placeholder part is rendered through the first node that
+// carries the part's name (MsgNode.Placeholder), so two nodes may share a name
+// only when they are the same source text - print directives included (a
+// |noAutoescape print must never stand in for a plain print of the same
+// expression).  The only place a node is given another node's name is the
+// equivNodeToRepNodes entry; it is made only after comparing the two String()s.
 //@ func setPlaceholderNames
-//@   props C13
+//@   props C13 C03
 //@   nosafety
 //@   modifies *
+//@   ghost curN ast.Node = nil
+//@   ghost curS string = ""
+//@   ghost othN ast.Node = nil
+//@   ghost othS string = ""
+//@   at call ast.Node.String#0 set curN = arg0
+//@   at call ast.Node.String#0 after set curS = res
+//@   at call ast.Node.String#1 set othN = arg0
+//@   at call ast.Node.String#1 after set othS = res
+//@   at call mapupdate#1 assert[named-alike-only-if-identical-source-text;C03] key == curN && val == othN && curS == othS
+//@   at call mapupdate#5 assert[representative-gets-the-name-it-is-filed-under;C03] haskey(nameToRepNodes, val) && nameToRepNodes[val] == key
+//@   at call mapupdate#6 assert[equivalent-node-gets-its-representative's-name;C03] haskey(equivNodeToRepNodes, key) && (haskey(m, equivNodeToRepNodes[key]) ==> val == m[equivNodeToRepNodes[key]])
 //@   loop 0
 //@     noterm
 //@   loop 4
